@@ -572,6 +572,27 @@ func OpenWith(path string, vLogs []appendable.Appendable, txLog, cLog appendable
 	tx, _ := txPool.Alloc()
 
 	for {
+		// when values are embedded, every tx record is preceded by its values (length + data)
+		txPrefixLen := 0
+
+		if embeddedValues {
+			var lenBs [sszSize]byte
+
+			_, err = txReader.Read(lenBs[:])
+			if err != nil {
+				break
+			}
+
+			valuesLen := int(binary.BigEndian.Uint16(lenBs[:]))
+
+			_, err = txReader.Read(make([]byte, valuesLen))
+			if err != nil {
+				break
+			}
+
+			txPrefixLen = sszSize + valuesLen
+		}
+
 		err = tx.readFrom(txReader, false)
 		if errors.Is(err, io.EOF) {
 			break
@@ -589,9 +610,9 @@ func OpenWith(path string, vLogs []appendable.Appendable, txLog, cLog appendable
 		precommittedTxID++
 		precommittedAlh = tx.header.Alh()
 
-		txSize := int(txReader.ReadCount() - (precommittedTxLogSize - committedTxLogSize))
+		txSize := int(txReader.ReadCount()-(precommittedTxLogSize-committedTxLogSize)) - txPrefixLen
 
-		err = cLogBuf.put(precommittedTxID, precommittedAlh, precommittedTxLogSize, txSize)
+		err = cLogBuf.put(precommittedTxID, precommittedAlh, precommittedTxLogSize+int64(txPrefixLen), txSize)
 		if errors.Is(err, ErrBufferIsFull) {
 			// Recovery path: cLogBuf is sized at MaxActiveTransactions,
 			// which caps in-flight precommitted txs as a runtime back-
@@ -601,14 +622,14 @@ func OpenWith(path string, vLogs []appendable.Appendable, txLog, cLog appendable
 			// buffer to fit instead of refusing to open the store. See
 			// issue #2086.
 			cLogBuf.grow(2 * len(cLogBuf.buf))
-			err = cLogBuf.put(precommittedTxID, precommittedAlh, precommittedTxLogSize, txSize)
+			err = cLogBuf.put(precommittedTxID, precommittedAlh, precommittedTxLogSize+int64(txPrefixLen), txSize)
 		}
 		if err != nil {
 			txPool.Release(tx)
 			return nil, fmt.Errorf("%v: while loading pre-committed transaction: %v", err, precommittedTxID+1)
 		}
 
-		precommittedTxLogSize += int64(txSize)
+		precommittedTxLogSize += int64(txPrefixLen + txSize)
 	}
 
 	txPool.Release(tx)
